@@ -124,7 +124,8 @@ def handle : Handler := fun op inp =>
       let back : Except Err Blob := match h with
         | .ok h => ofH5 h
         | .error e => .error e
-      return jObj [("h5", jExcept jH5 h), ("back", jExcept jBlob back)]
+      return jObj [("h5", jExcept jH5 h), ("back", jExcept jBlob back),
+                   ("outInv", jBool (outInv b))]
   | "output.csv" => some do
       let t ← parseTree (← field inp "tree")
       let taint ← natList (fieldD inp "taint" (Json.arr #[]))
